@@ -74,6 +74,7 @@ at = z3.Function('at', V, I, V)
 dhas = z3.Function('dhas', V, V, B)
 dget = z3.Function('dget', V, V, V)
 dcount = z3.Function('dcount', V, I)
+sorted_pos = z3.Function('sorted_pos', V, V, I)      # position of a key in the list that sorted(dict) returned
 app0 = z3.Function('app0', V, V)            # value of calling a 0-ary callable (when it returns)
 app0_raises = z3.Function('app0_raises', V, B)
 app1 = z3.Function('app1', V, V, V)
